@@ -6,6 +6,7 @@ driver for the idle-timeout model (engine `idle`, C28)
   reset <orig|fixed> <tls 0|1> <valet|porter> <T>
   tick <d> | arrive | connects | rx <id> <n> | eof <id> | tx <id> <n> | txb <id> <n>
   cp <id> <10|11|xx> <close 0|1> <keepalive 0|1> <chunked 0|1> <length 0|1>
+  req <id> <n> <10|11|xx> <close> <keepalive> <chunked> <length>     (n bytes of request arrive and the head is parsed)
 reply (every op): `now=<t> conns=<id:timeout:stop:cutoff:persisted,…> closed=<id:at:cutoff,…>`
 (`closed` = connections closed by this operation; persisted is N (None), T or F).
 -/
@@ -60,6 +61,13 @@ def step (st : Option State) (line : String) : Option State × String :=
           bool? cl, bool? ka, bool? ch, bool? ln with
     | some i, some ver, some cl, some ka, some ch, some ln => apply st (.checkPersisted i ver cl ka ch ln)
     | _, _, _, _, _, _ => (st, "bad-op")
+  | ["req", i, n, ver, cl, ka, ch, ln] =>
+    match i.toNat?, n.toNat?,
+          (if ver == "10" then some HttpVer.v10 else if ver == "11" then some HttpVer.v11
+           else if ver == "xx" then some HttpVer.other else none),
+          bool? cl, bool? ka, bool? ch, bool? ln with
+    | some i, some n, some ver, some cl, some ka, some ch, some ln => apply st (.request i n ver cl ka ch ln)
+    | _, _, _, _, _, _, _ => (st, "bad-op")
   | _ => (st, "bad-op")
 
 end Ioflo.Drv.Idle
